@@ -140,6 +140,35 @@ func runStress(op M) any {
 				count(iters)
 			}(w)
 		}
+		// every goroutine registers formats of its own: after Register returns the driver is there,
+		// after Unregister returns it is gone, whatever the others do to their formats meanwhile
+		for w := 0; w < 16; w++ {
+			wg.Add(1)
+			go func(w int) {
+				defer wg.Done()
+				for i := 0; i < iters; i++ {
+					f := formats.Format(fmt.Sprintf("verif/own-%d-%d", w, i%3))
+					d := &markDriver{string(f)}
+					sr := &markSerializer{string(f)}
+					guard(v, "own registration", func() {
+						reader.RegisterUnserializer(f, d)
+						writer.RegisterSerializer(f, sr)
+						if u, err := reader.GetFormatUnserializer(f); u != native.Unserializer(d) || err != nil {
+							v.add("a driver registered for %s by this goroutine alone is not found after RegisterUnserializer returned: (%v, %v)", f, u, err)
+						}
+						if x, err := writer.GetFormatSerializer(f); x != native.Serializer(sr) || err != nil {
+							v.add("a serializer registered for %s by this goroutine alone is not found after RegisterSerializer returned: (%v, %v)", f, x, err)
+						}
+						reader.UnregisterUnserializer(f)
+						writer.UnregisterSerializer(f)
+						if u, err := reader.GetFormatUnserializer(f); u != nil || err == nil {
+							v.add("the driver for %s is still there after UnregisterUnserializer returned", f)
+						}
+					})
+				}
+				count(6 * iters)
+			}(w)
+		}
 		wg.Wait()
 	case "io":
 		// detection, parsing and writing of independent documents: each result equals its sequential result
@@ -158,6 +187,10 @@ func runStress(op M) any {
 			}
 		}
 		for i, d := range docs {
+			// every document names its own tools and authors
+			if meta, ok := d["meta"].(M); ok {
+				meta["tools"] = []any{M{"n": fmt.Sprintf("scanner-%d", i), "v": "1.0"}, M{"n": fmt.Sprintf("second-%d", i)}}[:1+i%2]
+			}
 			f := formats.SPDX23JSON
 			if i%2 == 1 {
 				f = formats.CDX15JSON
@@ -189,7 +222,7 @@ func runStress(op M) any {
 		wdig := []string{}
 		for i, d := range docs {
 			f := formats.SPDX23JSON
-			if i%2 == 1 {
+			if i%3 == 2 {
 				f = formats.CDX14JSON
 			}
 			wdocs = append(wdocs, DocOf(d))
@@ -217,7 +250,7 @@ func runStress(op M) any {
 					})
 					k := (i + w) % len(wdocs)
 					f := formats.SPDX23JSON
-					if k%2 == 1 {
+					if k%3 == 2 {
 						f = formats.CDX14JSON
 					}
 					guard(v, "write", func() {
